@@ -31,7 +31,7 @@ static int count_tasks(void) {
 static _Atomic int g_tids[MAXTID];
 static _Atomic int g_ntids;
 static _Atomic long g_user_threads, g_index_checks;
-static int g_expect_workers;
+static int g_expect_workers, g_fini_worker;
 /* binding cycles: expected CPU of each worker rank (docs/bind.txt), -1 = not checked */
 static int g_bind_check, g_expect_cpu[64];
 static _Atomic long g_bind_checks;
@@ -92,9 +92,27 @@ static void * racer(void * a) {
   return 0;
 }
 
+/* myth_fini must return: a plain OS thread watches the time spent inside it (a generous wall-clock
+   bound: the call takes milliseconds; a finalisation that lost the main thread never returns) */
+static _Atomic long g_fini_started_ms;
+static long now_ms(void) { struct timespec ts; clock_gettime(CLOCK_MONOTONIC, &ts); return ts.tv_sec * 1000L + ts.tv_nsec / 1000000L; }
+static void * fini_watch(void * a) {
+  (void)a;
+  for (;;) {
+    myth_verif_real_usleep(200000);
+    long t0 = atomic_load(&g_fini_started_ms);
+    if (t0 && now_ms() - t0 > 120000) {
+      HK_FAIL("fini:does-not-return", "myth_fini has not returned for %ld s (main thread on worker index %d when it was called)", (now_ms() - t0) / 1000, g_fini_worker);
+      _exit(97);
+    }
+  }
+  return 0;
+}
+
 int main(int argc, char ** argv) {
   hk_init(argc, argv);
   uint64_t seed = hk_seed();
+  { pthread_t w; pthread_create(&w, 0, fini_watch, 0); pthread_detach(w); }
   int cycles = (int)hk_arg("cycles", 5);
   int maxw = (int)hk_arg("maxw", 16);
   int racers = (int)hk_arg("racers", 0);
@@ -212,7 +230,10 @@ int main(int argc, char ** argv) {
     int k;
     for (k = 0; k < 200 && myth_get_worker_num() == 0 && n > 1; k++) myth_yield_ex(myth_yield_option_steal_first);
     if (myth_get_worker_num() != 0) fini_migrated0++;
+    g_fini_worker = myth_get_worker_num();
+    atomic_store(&g_fini_started_ms, now_ms());
     myth_fini();
+    atomic_store(&g_fini_started_ms, 0);
     /* pthread_join returns when the kernel clears the exiting thread's tid, a moment before the task
        disappears from /proc: give it a bounded grace period (seen under load) */
     int after_fini = count_tasks(), grace;
